@@ -83,6 +83,16 @@ DecVerifyProg(struct, P, alg, x) ==
             [op |-> "new", obj |-> "par", kind |-> "sign1", m |-> ParentMsg],
             [op |-> "verifycs", obj |-> "m", parent |-> "par", form |-> "ptr", verifiers |-> <<v>>] @@ x >>
 
+\* user-supplied raw protected bytes that carry no alg: h'a0' (41 a0), {4: h'31'}, the same with a 2-byte length prefix
+RawNoAlg == { <<65, 160>>, <<68, 161, 4, 65, 49>>, <<88, 4, 161, 4, 65, 49>> }
+RawProg(struct, raw, nilmap, alg, x) ==
+  LET m == [P |-> <<>>, U |-> <<>>, payload |-> Pay, sig |-> <<>>, rawP |-> raw] @@ (IF nilmap THEN [Pnil |-> TRUE] ELSE [nop |-> 0]) IN
+  CASE struct \in {"sign1", "sign1u"} ->
+         << [op |-> "new", obj |-> "m", kind |-> struct, m |-> m],
+            [op |-> "sign", obj |-> "m", signers |-> <<Signer(alg)>>] @@ x,
+            [op |-> "marshal", obj |-> "m", buf |-> "b"] >>
+    [] struct \in {"sign1helper", "sign1untaggedhelper"} ->
+         << [op |-> struct, obj |-> "", m |-> m, signers |-> <<Signer(alg)>>, buf |-> "b"] @@ x >>
 VARIABLE st
 Init == st = [phase |-> 0]
 PickStruct == st.phase = 0 /\ \E s \in Structs : \E flow \in {"sign", "verify", "decverify"} :
@@ -93,10 +103,13 @@ PickHdr == st.phase = 1 /\ \E hv \in HdrAlgs \cup {Absent} : \E lt \in (IF hv.t 
                  /\ st' = [phase |-> 2, struct |-> st.struct, flow |-> st.flow, P |-> PBucket(lt, hv)]
 PickRest == st.phase = 2 /\ \E alg \in SignerAlgs : \E x \in Exts :
                  st' = [phase |-> 3, struct |-> st.struct, flow |-> st.flow, P |-> st.P, alg |-> alg, x |-> x]
-Next == PickStruct \/ PickHdr \/ PickRest
+PickRaw == st.phase = 0 /\ \E s \in {"sign1", "sign1u", "sign1helper", "sign1untaggedhelper"} : \E raw \in RawNoAlg : \E nm \in BOOLEAN : \E alg \in {0 - 7, 5} : \E x \in Exts :
+             st' = [phase |-> 3, struct |-> s, flow |-> "sign", P |-> <<>>, alg |-> alg, x |-> x, raw |-> raw, nilmap |-> nm]
+Next == PickStruct \/ PickHdr \/ PickRest \/ PickRaw
 Spec == Init /\ [][Next]_st
 
-Prog == CASE st.flow = "sign" -> SignProg(st.struct, st.P, st.alg, st.x)
+Prog == CASE st.flow = "sign" /\ "raw" \in DOMAIN st -> RawProg(st.struct, st.raw, st.nilmap, st.alg, st.x)
+          [] st.flow = "sign" -> SignProg(st.struct, st.P, st.alg, st.x)
           [] st.flow = "verify" -> VerifyProg(st.struct, st.P, st.alg, st.x)
           [] st.flow = "decverify" -> DecVerifyProg(st.struct, st.P, st.alg, st.x)
 Emit == st.phase # 3 \/
